@@ -80,6 +80,9 @@ impl Prop for C08 {
             for _ in 0..n {
                 c.breaks.push(rng.below(80) as u32);
             }
+            if rng.chance(1, 3) {
+                c.reply_breaks.push((rng.below(4) as u32, None));
+            }
         } else {
             ctx.count("subbatch.fault_free");
         }
